@@ -161,7 +161,7 @@ def parse (T : Table) : List Str → List Ev × Nat
 
 /-- What a complete `while ((ch = GETOPT(argc, argv)) != NULL) GETOPT_SWITCH(ch) {…}` loop reports for
     `argv` (including `argv[0]`), and the final `optind` (the index of the first operand). -/
-def getopt (T : Table) (argv : List Str) : List Report × Nat :=
+def parseArgv (T : Table) (argv : List Str) : List Report × Nat :=
   let r := parse T (argv.drop 1)
   (r.1.map (route T.hasMissing), 1 + r.2)
 
